@@ -18,7 +18,7 @@ OUTSIDE = ["3+ connections", "real joins/timeouts of OS threads"]
 
 A_STATES = ["out_connecting", "in_pre_cer", "out_pre_cea", "ready", "waiting_dwa", "disconnecting"]
 B_KINDS = ["none", "second_of_peer1", "peer2_ready", "peer2_pre_cer"]
-REACT = ["dpa_prompt", "dpa_late", "never", "close", "dwa_then_dpa"]
+REACT = ["dpa_prompt", "dpa_late", "never", "close", "dwa_then_dpa", "dpa_dwa_same_read"]
 
 
 def scenario(sa: int, kb: int, ra: int, rb: int, force: bool, wt: int, newcomer: bool, deadline: bool, eager_io: bool) -> bool:
@@ -110,6 +110,10 @@ def scenario(sa: int, kb: int, ra: int, rb: int, force: bool, wt: int, newcomer:
                         if r == "dwa_then_dpa":
                             s.inq.append(B.dwa(B.PEER_HOSTS[0], 4711, 4711).as_bytes())      # the answer to an outstanding DWR crosses the DPR
                             pending.append((tick[0], i, m))
+                        elif r == "dpa_dwa_same_read":
+                            # the DPA and, right behind it in the same segment, the overdue answer to an earlier DWR
+                            s.inq.append(B.dpa(B.PEER_HOSTS[0], m.header.hop_by_hop_identifier, m.header.end_to_end_identifier).as_bytes()
+                                         + B.dwa(B.PEER_HOSTS[0], 4711, 4711).as_bytes())
                         elif r in ("dpa_prompt", "dpa_late"):
                             pending.append((tick[0] + (0 if r == "dpa_prompt" else 2), i, m))
                         elif r == "close":
@@ -178,7 +182,7 @@ def scenario(sa: int, kb: int, ra: int, rb: int, force: bool, wt: int, newcomer:
             if socks[i] is not None and not socks[i].closed:
                 why = why or "socket of connection %d still open after stop()" % i
         if not force:
-            prompt_all = all((not was_ready[i]) or react[i] in ("dpa_prompt", "dwa_then_dpa") for i in range(len(conns))) and all(was_ready) and not newcomer
+            prompt_all = all((not was_ready[i]) or react[i] in ("dpa_prompt", "dwa_then_dpa", "dpa_dwa_same_read") for i in range(len(conns))) and all(was_ready) and not newcomer
             if prompt_all and conns and tick[0] >= W:
                 why = why or "all peers answered the DPR at once but stop() waited the whole timeout (%d ticks)" % tick[0]
         if new_sock[0] is not None:
